@@ -10,9 +10,9 @@ from harness import lr_tables as L
 from harness import lr_gen_x as GX
 
 META = {
-    "technique": "Coq proof that a first-order LR table validator (check_sound) is sound for the model of Parser.parse, for all tables; the validator applied (extracted OCaml; inside Coq for a sample / all in thorough) to the tables lr1.py builds for the Emboss module and expression grammars and for N random small CFGs per run; differential correspondence Parser.parse vs model on all strings up to length 6 (small grammars) and derived sentences + mutations (Emboss), cross-checked with an independent Earley recogniser, ambiguity counter and derivation checker; a Gallina model of the generator itself (LR/Gen.v: FIRST, closure, goto, canonical collection, table filling) is compared differentially with lr1.Grammar on every small grammar of the run and, for FIRST, on the Emboss grammar",
-    "level_text": "Machine-checked theorems (Coq 8.16, no axioms), for ALL tables, certificates, grammars, token lists and fuel: if check_sound G T C = true and run T accepts, the returned tree is a derivation tree of the start symbol of G whose leaves are the input tokens in order (run_sound, run_sound_gen); an error at index i depends only on tokens 0..i (run_prefix_det). If check_complete G T I F = true (LR(1) item sets and FIRST sets as untrusted certificate) every derivation tree of the start symbol is returned given enough fuel (run_complete), an error at index i implies that no sentence starts with tokens 0..i (error_not_late), and on a sentence run returns its tree or runs out of fuel (sentence_result), and G is unambiguous (unambiguous). The generator is covered per instance: each run rebuilds the Emboss parsers and N random small grammars' parsers with the working tree's lr1.py and decides check_sound and check_complete on their tables and item sets. With check_early (item cores valid) and check_productive (rank certificate) an error at index i implies tokens 0..i-1 start a sentence (error_not_early), so the error position is exact (error_position_exact); without productivity this is refuted (error_not_early_refuted, grammar S -> a S). These and 'ambiguous grammars are reported' are additionally tested on every string up to length 6 (small grammars) and on sampled Emboss sentences against an independent Earley recogniser. For the Gallina model of the generator (LR/Gen.v: FIRST fixed point, item closure, goto, canonical collection, table filling with conflict detection) and ALL grammars: the computed FIRST sets are exactly the terminals that can start / the nullability of a symbol string w.r.t. sentential-form derivations (first_sound, first_complete, first_complete_stable) and the computation never runs out of fuel (first_fuel_enough; closure_fuel_enough, goto_fuel_enough); the computed closure and goto are exactly ALSU's CLOSURE and GOTO (closure_closed, closure_sound, closure_exact, goto_spec); the computed collection starts with the closure of [S' -> . start, $] and is closed under goto (items_closed); whenever the model generator reports neither a conflict nor the Accept clash its tables pass check_complete (generate_pass_check_complete), hence every derivation tree is returned, no error is late and the grammar is unambiguous (generate_run_complete, generate_error_not_late, generate_clean_unambiguous; non-vacuous: generate_nonvacuous). The executable generator model LR.Gen.generate is tied to lr1.Grammar on every random and corpus grammar of the run: equal FIRST sets, closure of the start item, set of item sets, goto/action tables up to the state renaming induced by the item sets, set of conflicting cells and conflict verdict (and equal FIRST sets on the Emboss grammar).",
-    "level_note": "sound and complete per validated instance (run_sound, run_complete, error_not_late proved for all tables passing the checkers; the checkers pass on the Emboss grammars and on every conflict-free random grammar of the run); error_not_early / error_position_exact proved under check_early + check_productive (instantiated on the Emboss grammars and every conflict-free productive random grammar; refuted without productivity: error_not_early_refuted); the generator itself is covered by translation validation of its output, not by a proof about lr1.py. Trusted: Coq kernel + vm_compute; extraction + OCaml for instance checks in quick (a sample is re-evaluated inside Coq and compared; thorough re-evaluates all small-grammar instances inside Coq); harness/lr_tables.py translator (certificates it computes are untrusted inputs of the verified checker); the Python Earley recogniser is support/search only. Modelled, not verified: lr1.py itself. For the MODEL generator LR/Gen.v translation validation is a theorem (generate_pass_check_complete: clean verdict => check_complete, for every grammar); not proved for it: that clean tables also pass check_sound / check_early, and a fuel bound for the collection loop. The generator model LR/Gen.v corresponds to lr1.Grammar by differential testing only (harness/lr_gen_x.py; state numbers and the surviving action of a conflicting cell depend on Python set order and are compared up to renaming / as a set of cells; duplicate productions and the symbols S' and $ are outside the model and counted).",
+    "technique": "Coq proof that a first-order LR table validator (check_sound) is sound for the model of Parser.parse, for all tables; the validator applied (extracted OCaml; inside Coq for a sample / all in thorough) to the tables lr1.py builds for the Emboss module and expression grammars and for N random small CFGs per run; differential correspondence Parser.parse vs model on all strings up to length 6 (small grammars) and derived sentences + mutations (Emboss), cross-checked with an independent Earley recogniser, ambiguity counter and derivation checker; a Gallina model of the generator itself (LR/Gen.v: FIRST, closure, goto, canonical collection, table filling) is compared differentially with lr1.Grammar on every small grammar of the run and, for FIRST, on the Emboss grammar; the certificate constructions of LR/GenCert2.v are evaluated inside Coq on a sample of these grammars, on lr1.py's own tables + item sets (check_sound with the known-suffix certificate built from lr1's item sets) and on the model's tables (check_sound, check_early, all_productive, check_productive, gen_clean, productivity marks vs an independent Python fixed point)",
+    "level_text": "Machine-checked theorems (Coq 8.16, no axioms), for ALL tables, certificates, grammars, token lists and fuel: if check_sound G T C = true and run T accepts, the returned tree is a derivation tree of the start symbol of G whose leaves are the input tokens in order (run_sound, run_sound_gen); an error at index i depends only on tokens 0..i (run_prefix_det). If check_complete G T I F = true (LR(1) item sets and FIRST sets as untrusted certificate) every derivation tree of the start symbol is returned given enough fuel (run_complete), an error at index i implies that no sentence starts with tokens 0..i (error_not_late), and on a sentence run returns its tree or runs out of fuel (sentence_result), and G is unambiguous (unambiguous). The generator is covered per instance: each run rebuilds the Emboss parsers and N random small grammars' parsers with the working tree's lr1.py and decides check_sound and check_complete on their tables and item sets. With check_early (item cores valid) and check_productive (rank certificate) an error at index i implies tokens 0..i-1 start a sentence (error_not_early), so the error position is exact (error_position_exact); without productivity this is refuted (error_not_early_refuted, grammar S -> a S). These and 'ambiguous grammars are reported' are additionally tested on every string up to length 6 (small grammars) and on sampled Emboss sentences against an independent Earley recogniser. For the Gallina model of the generator (LR/Gen.v: FIRST fixed point, item closure, goto, canonical collection, table filling with conflict detection) and ALL grammars: the computed FIRST sets are exactly the terminals that can start / the nullability of a symbol string w.r.t. sentential-form derivations (first_sound, first_complete, first_complete_stable) and the computation never runs out of fuel (first_fuel_enough; closure_fuel_enough, goto_fuel_enough); the computed closure and goto are exactly ALSU's CLOSURE and GOTO (closure_closed, closure_sound, closure_exact, goto_spec); the computed collection starts with the closure of [S' -> . start, $] and is closed under goto (items_closed); whenever the model generator reports neither a conflict nor the Accept clash its tables pass check_complete (generate_pass_check_complete), hence every derivation tree is returned, no error is late and the grammar is unambiguous (generate_run_complete, generate_error_not_late, generate_clean_unambiguous; non-vacuous: generate_nonvacuous). The model generator's tables and item sets also pass check_sound (known-suffix certificate scert_of computed from the item sets) and check_early, for every grammar, clean or not (generate_pass_check_sound, generate_pass_check_sound_cores, generate_pass_check_early); the productivity fixed point prod_marks gives a rank certificate (all_productive_cert) and the boolean all_productive G holds exactly when every nonterminal derives a terminal string (all_productive_sound, all_productive_complete); hence generate_run_sound, generate_error_not_early and the combined generate_correct: for a grammar all of whose nonterminals are productive and a clean verdict, run on the generated tables accepts exactly the sentences, returns their unique derivation tree and reports an error exactly at the first token after the longest viable prefix (non-vacuous: generate_correct_nonvacuous). More fuel never changes a returned result (items_fuel_monotone, generate_fuel_monotone, generate_fuel_independent); a returned collection is, up to set equality, exactly the canonical collection, each item set once (items_complete_when_some, generate_is_collection); the verdict gen_clean is a property of the grammar alone -- clean iff no item set of the canonical collection has two items asking for different actions in one cell (gen_clean_iff_lr1) -- so any presentation of the canonical collection, in any work-list order and any order of the items inside a state, is filled without Conflict/Accept clash exactly when the model reports clean (generate_verdict_order_independent_partial; partial: same production list on both sides, tables up to renaming not compared). The executable generator model LR.Gen.generate is tied to lr1.Grammar on every random and corpus grammar of the run: equal FIRST sets, closure of the start item, set of item sets, goto/action tables up to the state renaming induced by the item sets, set of conflicting cells and conflict verdict (and equal FIRST sets on the Emboss grammar). The certificates of LR/GenCert2.v are exercised by vm_compute on a sample of the grammars (40 quick / 400 thorough): LR.GenExec.certify must return check_sound = true for lr1.py's own tables with the known-suffix certificate built from lr1.py's own item sets, check_sound = check_early = true on the model's tables, all_productive = check_productive(pcert_of) = 'no unproductive nonterminal', gen_clean = lr1's verdict and the same productivity marks as an independent Python fixed point.",
+    "level_note": "sound and complete per validated instance (run_sound, run_complete, error_not_late proved for all tables passing the checkers; the checkers pass on the Emboss grammars and on every conflict-free random grammar of the run); error_not_early / error_position_exact proved under check_early + check_productive (instantiated on the Emboss grammars and every conflict-free productive random grammar; refuted without productivity: error_not_early_refuted); the generator itself is covered by translation validation of its output, not by a proof about lr1.py. Trusted: Coq kernel + vm_compute; extraction + OCaml for instance checks in quick (a sample is re-evaluated inside Coq and compared; thorough re-evaluates all small-grammar instances inside Coq); harness/lr_tables.py translator (certificates it computes are untrusted inputs of the verified checker); the Python Earley recogniser is support/search only. Modelled, not verified: lr1.py itself. For the MODEL generator LR/Gen.v translation validation is a theorem (generate_pass_check_complete: clean verdict => check_complete, for every grammar); its tables also pass check_sound and check_early for every grammar (generate_pass_check_sound, generate_pass_check_early), so with all_productive G = true and a clean verdict generate_correct holds; not proved for it: an a-priori fuel bound for the collection loop (termination is by fuel = number of states lr1.py built + slack; GenOutOfFuel is a distinct outcome reported as a difference; fuel monotonicity and completeness-when-Some are proved), verdict independence under permutation of the production LIST, and equality of the tables up to state renaming across presentations. The generator model LR/Gen.v corresponds to lr1.Grammar by differential testing only (harness/lr_gen_x.py; state numbers and the surviving action of a conflicting cell depend on Python set order and are compared up to renaming / as a set of cells; duplicate productions and the symbols S' and $ are outside the model and counted).",
 }
 
 FUEL_SMALL = lambda n: 400 + 80 * n
@@ -341,6 +341,58 @@ def judge_gen_model(ctx, bench, smalls, emboss_first):
                           dict(kind="grammar", correspondence="LR.Gen.first_table vs lr1.Grammar.firsts", grammar="module_ir.PRODUCTIONS",
                                differences=diffs[:8]), found_input=False)
 
+def gen_certificates(ctx, bench, smalls, thorough):
+    """LR/GenCert2.v (known-suffix certificate from item sets, productivity ranks from the grammar) evaluated inside
+    Coq by vm_compute (LR/GenExec.certify) on a sample of the small grammars whose parser lr1 built:
+      (a) on lr1.py's OWN tables + item sets: check_sound with the certificate computed from lr1's item sets;
+      (b) on the model generator's tables: check_sound / check_early (theorems, re-evaluated), all_productive,
+          check_productive (pcert_of), gen_clean; the marks of the productivity fixed point against an
+          independent Python computation.
+    One case per grammar; quick: 40 grammars, thorough: 400."""
+    from compiler.front_end import lr1
+    I = bench.I
+    sp = I.s(lr1.START_PRIME)
+    pool = [sg for sg in smalls if sg.parser is not None and getattr(sg, "gen_cmd", None) and sg.gen_view is not None
+            and sg.gen_view["parser"] is not None and len(sg.gen_view["states"]) <= 120]
+    pick = pool[: (400 if thorough else 40)]
+    cases = []
+    for sg in pick:
+        inp, exp, meta = GX.certify_case(sg.start, sg.prods, sg.tab, sg.slot, sg.gen_view, I, bench.eoi, sp, L.table_lines)
+        cases.append((inp, exp, (sg, meta)))
+        ctx.count("gen-cert:" + ("productive" if not meta["unproductive"] else "unproductive") + ":" +
+                  ("clean" if meta["expect"][7] else "conflicts"))
+        ctx.case(("gen-cert",) + tuple(_gram(sg.prods)) + (sg.start,), nontrivial=len(sg.prods) >= 2 and len(sg.gen_view["states"]) >= 3,
+                 sample=dict(correspondence="LR.GenExec.certify vs lr1 tables / Python productivity", start=sg.start,
+                             grammar=_gram(sg.prods), marks=meta["marks"][:8]))
+    if not cases:
+        ctx.obligation("generator certificates: no grammar to evaluate", False)
+        return
+    try:
+        bad = fw.CoqCases(ctx, "c08cert", "Require Import EmbossV.LR.Driver EmbossV.LR.GenExec.\nOpen Scope N_scope.",
+                          "certify", "list_N_eqb", "(list (list N) * N * N * N * N * N)", "list N",
+                          shard=10, timeout=1500).run(cases)
+    except fw.CoqEvalError as ex:
+        ctx.obligation("generator certificates: in-Coq evaluation of LR.GenExec.certify", False)
+        ctx.violation("generator-certificates-evaluation-failed", "LR.GenExec.certify could not be evaluated: %s" % str(ex)[-400:],
+                      dict(kind="correspondence", correspondence="LR.GenExec.certify", error=str(ex)[-1500:]), found_input=False)
+        return
+    for idx, out in bad:
+        sg, meta = cases[idx][2]
+        ctx.violation("generator-certificates-correspondence",
+                      "LR.GenExec.certify differs from the expected certificates verdicts on a small grammar "
+                      "(expected [sound on lr1 tables, productive | ok, sound, early, all_productive, check_productive, clean, marks] = %s)"
+                      % (meta["expect"],),
+                      dict(kind="grammar", correspondence="LR.GenExec.certify (scert_of_icert on lr1 tables, gen_certify) vs lr1.Grammar / Python productivity",
+                           start=sg.start, productions=[[p.lhs, list(p.rhs)] for p in sg.prods], expected=meta["expect"],
+                           model_output=out[-600:], hashseed=os.environ.get("PYTHONHASHSEED")), found_input=False)
+    ctx.obligation("generator certificates: on %d grammars (vm_compute) the known-suffix certificate built from lr1.py's own item sets "
+                   "validates lr1.py's own tables (check_sound), the model generator's tables pass check_sound and check_early, "
+                   "all_productive / check_productive(pcert_of) = 'no unproductive nonterminal' (%d productive, %d not), gen_clean = lr1's verdict, "
+                   "prod_marks = the independent Python fixed point" % (
+                       len(cases), sum(1 for c in cases if not c[2][1]["unproductive"]), sum(1 for c in cases if c[2][1]["unproductive"])),
+                   not bad)
+    ctx.extra["generator_certificates"] = dict(grammars=len(cases), mismatches=len(bad))
+
 # ==== end of the generator model block ===================================================================
 
 
@@ -437,11 +489,11 @@ def run(ctx):
                 "length 6 (5 for 4 terminals; cap 1100) plus three out-of-alphabet probes: Parser.parse vs model `run` (all fields) and, for "
                 "conflict-free grammars, vs an independent Earley recogniser (membership, two-derivation search, longest viable prefix) and a "
                 "derivation checker; Emboss module/expression grammars: derived sentences + 2 token-level mutations each.  A case is "
-                "non-trivial when it has >= 2 tokens (>= 3 for Emboss); distinct by (grammar, token string).  Each of these small grammars (also those on which parser() raised) is additionally one case of the generator-model correspondence LR.Gen.generate vs lr1.Grammar (non-trivial with >= 2 productions and >= 3 states; distinct by grammar), plus one FIRST-only case for the Emboss grammar")
+                "non-trivial when it has >= 2 tokens (>= 3 for Emboss); distinct by (grammar, token string).  Each of these small grammars (also those on which parser() raised) is additionally one case of the generator-model correspondence LR.Gen.generate vs lr1.Grammar (non-trivial with >= 2 productions and >= 3 states; distinct by grammar), plus one FIRST-only case for the Emboss grammar; a sample of them (40 quick / 400 thorough, parser returned, <= 120 states) is one case each of the certificate correspondence LR.GenExec.certify (distinct by grammar)")
     ctx.trusted = ["Coq 8.16.1 kernel, vm_compute", "OCaml 4.13.1 + extraction (ExtrOcamlBasic) + extract/lr/driver.ml",
                    "harness/lr_tables.py (translator, Earley recogniser used as oracle for the unproved direction)",
                    "harness/props/c08.py", "CPython 3.12 running /repo's lr1.py",
-                   "harness/lr_gen_x.py (decoder and comparator of the generator-model correspondence; reads lr1.Grammar's firsts, _first, _closure_of_item, _items, parser)"]
+                   "harness/lr_gen_x.py (decoder and comparator of the generator-model correspondence; reads lr1.Grammar's firsts, _first, _closure_of_item, _items, parser; expected outputs of LR.GenExec.certify)"]
     ctx.assumptions = ["symbols are non-empty strings (lr1.py treats falsy symbols as epsilon)",
                        "completeness / no-late-error / conflict reporting are tested, not proved (see level_note)",
                        "PYTHONHASHSEED is fixed by ./check; lr1.Grammar.parser() is hash-seed dependent on grammars with an Accept/Reduce clash (finding F11)"]
@@ -454,7 +506,7 @@ def run(ctx):
         T0 = time.time()
 
     ctx.audit(extra_files=[os.path.join(fw.VERIF, "extract", "lr", "Extract.v")])
-    ctx.check_theorems("EmbossV.LR.Properties_C08", "LR/Properties_C08.v", expect_min=30)
+    ctx.check_theorems("EmbossV.LR.Properties_C08", "LR/Properties_C08.v", expect_min=48)
     lap("coq build + assumptions")
 
     driver = L.build_driver(ctx)
@@ -575,6 +627,8 @@ def run(ctx):
     lap("verdicts (earley, derivation checks)")
     judge_gen_model(ctx, bench, smalls, gen_emboss_first)
     lap("generator model: decoding, comparison")
+    gen_certificates(ctx, bench, smalls, thorough)
+    lap("generator certificates (in-Coq)")
     # ---- the same commands inside Coq (vm_compute) for a sample / all ------------------------
     coq_recheck(ctx, bench, [sg for sg in smalls if sg.parser is not None], thorough, emboss)
     lap("in-Coq re-evaluation")
